@@ -86,6 +86,19 @@ register("C18",
          "re-using the model's action (code->spec)",
          "DESIGN.md §4 C18")
 
+register("C20",
+         "Xvg.tla is a line-oriented operational model of EnergyReader (legend scan for s0..s9 up to the first non-header "
+         "line, skiprows=13, '@' as comment character) next to the declarative meaning of an xvg file; TLC checks over all "
+         "header layouts ('#' 0..14, '@' 0..14, legends at any '@' positions, 0..2 rows) that they coincide inside the "
+         "GROMACS envelope and shows what breaks outside it. Hundreds of files are materialised for random layouts inside "
+         "the envelope (1..10 legends, texts with spaces/dots/brackets, 0..40 rows) plus the shipped GROMACS example, read by "
+         "the real EnergyReader (frame, single column, csv round trip) and validated by TLC against the declarative meaning. "
+         "Persist.tla models the artefact store (read returns last write); GridWriter -> files -> GridReader events on real "
+         "small grids (digests of values, shape, format and stored index order) are validated by Persist_Trace.",
+         "Energy values on a 6-decimal lattice; legend texts without quotes; grids of the listed small sizes.",
+         "TLA+ reader/store models checked by TLC + TLC trace validation of files written and read by the implementation",
+         "DESIGN.md §4 C20")
+
 ALL = [f"C{i:02d}" for i in range(1, 21)]
 
 
